@@ -7,6 +7,9 @@ import time
 import z3
 from . import ops
 
+# z3 5.1's Diophantine-equation handler (lp.dio) was seen to run for hours inside one query, ignoring the solver timeout (integer
+# obligations of the C19 proof under load); the handler is an optional heuristic of the LIA procedure and is switched off
+z3.set_param("lp.dio", False)
 CVC5 = "/usr/bin/cvc5"
 
 
